@@ -505,6 +505,13 @@ func (a *APK) ResolveWorld(ctx context.Context) (toInstall []*RepositoryPackage,
 	// For other architectures we're building (if any), we want to disqualify any packages not present in all archs.
 	allArchs := map[string][]NamedIndex{}
 	for otherArch, otherAPK := range a.ByArch {
+		if otherAPK == a {
+			// Disqualifications are keyed by *RepositoryPackage, so our own entry must hold the very
+			// index objects the resolver was built from. Fetching them a second time is not guaranteed
+			// to yield the same objects (no ETag, offline cache, a local index that changed).
+			allArchs[otherArch] = indexes
+			continue
+		}
 		indexes, err := otherAPK.GetRepositoryIndexes(ctx, a.ignoreSignatures)
 		if err != nil {
 			return toInstall, conflicts, fmt.Errorf("getting indexes for %q sibling: %w", otherArch, err)
